@@ -1,4 +1,7 @@
 fn main() {
+    // only re-run when this script changes (otherwise any new file in the
+    // package directory, e.g. a build log, dirties the crate)
+    println!("cargo:rerun-if-changed=build.rs");
     // let dlsym()-based callers (std weak symbols, getrandom 0.3) find the
     // interposed symbols defined by the simulator binary
     println!("cargo:rustc-link-arg-bins=-rdynamic");
